@@ -109,6 +109,9 @@ def gen_inputs(ctx, tier):
     nsoup = 9000 if tier == "quick" else 150000
     for i in range(nsoup):
         inputs.append(("soup_balanced" if i % 4 else "soup_unbalanced", gen_text.soup(rng, vocab, balanced=bool(i % 4))))
+    nshaped = 8000 if tier == "quick" else 150000
+    for _ in range(nshaped):
+        inputs.append(("shaped", gen_text.shaped(rng)))
     progs = gen_text.corpus_programs()
     forms = []
     for p in progs:
